@@ -602,4 +602,47 @@ theorem legacy_keeps_locks_counterexample : ¬ legacy_keeps_locks_statement := b
   revert this
   decide
 
+/-! ## wave 6: pre-executed transactions held and submitted later on a node (`Node`) -/
+
+/-- an accepted held transaction has the effect of its call made on the state it is committed to -/
+theorem accepted_is_the_call_made_now (n n' : Node) (h : Held) (hacc : n.accept h = some n') :
+    step? n.live h.call = some n'.live := by
+  unfold Node.accept at hacc
+  split at hacc
+  · exact absurd hacc (by simp)
+  · cases hs : step? n.live h.call with
+    | none => simp [hs] at hacc
+    | some w => simp [hs] at hacc; subst hacc; rfl
+
+/-- a held transaction that read a key written since its pre-execution is refused -/
+theorem stale_held_refused (n : Node) (h : Held) (hc : conflicts (footprint h.call) (n.log.drop h.seen) = true) :
+    n.accept h = none := by
+  unfold Node.accept
+  simp [hc]
+
+/-- two transfers to the same account computed on the same state: whichever is accepted first, the other is refused -/
+theorem transfers_to_same_account_clash (s₁ s₂ t : Acct) (a b : Int) (log : List (List Key)) :
+    conflicts (footprint (.transfer s₂ t b)) ((log ++ [footprint (.transfer s₁ t a)]).drop log.length) = true := by
+  simp [conflicts, footprint, Key.clash]
+
+/-- two proposals computed on the same state clash (both take the next proposal id) -/
+theorem proposals_on_same_state_clash (a₁ a₂ : Acct) (p₁ s₁ t₁ p₂ s₂ t₂ : Int) (o₁ o₂ : Bool) (log : List (List Key)) :
+    conflicts (footprint (.propose a₂ p₂ s₂ t₂ o₂)) ((log ++ [footprint (.propose a₁ p₁ s₁ t₁ o₁)]).drop log.length) = true := by
+  simp [conflicts, footprint, Key.clash]
+
+/-- pending (accepted, not yet packed) transactions do not change what a balance query at the tip answers -/
+theorem query_ignores_pending (n n' : Node) (h : Held) (a : Acct) (hacc : n.accept h = some n') :
+    n'.queryBalance a = n.queryBalance a := by
+  unfold Node.accept at hacc
+  split at hacc
+  · exact absurd hacc (by simp)
+  · cases hs : step? n.live h.call with
+    | none => simp [hs] at hacc
+    | some w => simp [hs] at hacc; subst hacc; rfl
+
+/-- after a block the query answers the live balance -/
+theorem query_after_pack (n : Node) (a : Acct) :
+    n.pack.queryBalance a = (aget n.pack.live.gov.bal a).map (·.total) := by
+  simp [Node.pack, Node.queryBalance]
+
 end XV.C19
